@@ -121,6 +121,7 @@ func c19Build(cfg c19Cfg) *restful.Container {
 	ws.Route(ws.GET("/files/{t:*}").To(echo("files")))
 	// an entity negotiated between two representations
 	ws.Route(ws.GET("/ent").Produces(restful.MIME_XML, restful.MIME_JSON).To(func(req *restful.Request, resp *restful.Response) {
+		pt("handler.enter")
 		resp.WriteEntity(c19Ent{"negotiated who=" + fmt.Sprint(req.Attribute("who"))})
 	}))
 	ws.Route(ws.POST("/item").To(func(req *restful.Request, resp *restful.Response) {
@@ -149,6 +150,10 @@ func c19Build(cfg c19Cfg) *restful.Container {
 	}
 	ws2.Route(ws2.GET("/thing/{tid}").If(cond).To(echo("thing")))
 	c.Add(ws2)
+	// a service whose root path has a variable
+	ws3 := new(restful.WebService).Path("/t/{tenant}")
+	ws3.Route(ws3.GET("/items/{id}").If(cond).To(echo("tenant-item")))
+	c.Add(ws3)
 	// a plain http.Handler behind the container filters
 	c.HandleWithFilter("/hwf/", http.HandlerFunc(func(w http.ResponseWriter, r *http.Request) {
 		pt("plain.handler")
@@ -182,6 +187,11 @@ func c19Q() []h.Req {
 		{Method: "GET", Segs: []string{"api", "files", "a", "b.txt"}, Hdr: [][2]string{{"X-Who", "max"}}},
 		{Method: "GET", Segs: []string{"api", "boom", "one"}, Hdr: [][2]string{{"X-Who", "nat"}}},
 		{Method: "GET", Segs: []string{"api", "boom", "two"}, Hdr: [][2]string{{"X-Who", "oz"}}},
+		{Method: "GET", Segs: []string{"t", "acme", "items", "1"}, Hdr: [][2]string{{"X-Who", "pat"}}},
+		{Method: "GET", Segs: []string{"t", "globex", "items", "2"}, Hdr: [][2]string{{"X-Who", "quin"}}},
+		// a q value that does not parse: how it is treated is nobody's business here, but it must not
+		// depend on trace logging or on other requests
+		{Method: "GET", Segs: []string{"api", "ent"}, Hdr: [][2]string{{"X-Who", "rae"}, {"Accept", "application/xml;q=high, application/json;q=0"}}},
 	}
 }
 
@@ -303,25 +313,30 @@ type c19Issue struct {
 	Case  c19Case `json:"case"`
 }
 
+// c19Seqs: every sequence of <= 2 requests over all of Q and every sequence of 3 (thorough: 3 over
+// all of Q and 4 over the core) over the core of Q (its first 14 requests: one of each kind of
+// framework feature; the later ones vary templates and header spellings).
 func c19Seqs(tier string, nq int) [][]int {
-	depth := 3
-	if tier == "thorough" {
-		depth = 4
-	}
+	const core = 14
 	var seqs [][]int
-	var rec func(cur []int)
-	rec = func(cur []int) {
-		if len(cur) > 0 {
-			seqs = append(seqs, append([]int{}, cur...))
-		}
+	var rec func(cur []int, n, depth int)
+	rec = func(cur []int, n, depth int) {
 		if len(cur) == depth {
+			seqs = append(seqs, append([]int{}, cur...))
 			return
 		}
-		for i := 0; i < nq; i++ {
-			rec(append(cur, i))
+		for i := 0; i < n; i++ {
+			rec(append(cur, i), n, depth)
 		}
 	}
-	rec(nil)
+	rec(nil, nq, 1)
+	rec(nil, nq, 2)
+	if tier == "thorough" {
+		rec(nil, nq, 3)
+		rec(nil, core, 4)
+	} else {
+		rec(nil, core, 3)
+	}
 	return seqs
 }
 
@@ -407,9 +422,9 @@ func c19Worker(args []string) {
 
 func checkC19(run *h.Run) {
 	q := c19Q()
-	depth := 3
+	depth := "<= 2 over all of Q, 3 over its first 14 requests"
 	if run.Tier == "thorough" {
-		depth = 4
+		depth = "<= 3 over all of Q, 4 over its first 14 requests"
 	}
 	var states, trans int64
 	cfgs := c19Cfgs(run.Tier)
@@ -465,7 +480,7 @@ func checkC19(run *h.Run) {
 	run.Cov["distinct_nontrivial"] = states
 	run.Cov["distinct_outcomes"] = outcomes.Len()
 	run.Cov["exhaustive"] = true
-	run.Cov["rule"] = fmt.Sprintf("E2: configurations {plain, 3 container + service + route filters, CORS with computed methods, OPTIONS filter, encoding with bounded(1) provider} x {CurlyRouter, RouterJSR311} x entry {Dispatch, ServeHTTP} x trace {off, on}: every sequence over the request set Q (%d requests: two GETs on one template, POST entity, 404, 405, CORS preflight, a handler that dispatches a nested request, a second template with other methods incl. its preflight and 405, a second service, a plain handler behind HandleWithFilter, an entity negotiated between XML and JSON under two Accept headers that differ only in letter case and once as XML, routes with a regular-expression variable, a custom verb and a tail wildcard, two requests whose route function panics (default recover handler)) of length <= %d on one container, plus the 1000-fold repetition of each request; the last response (status, all headers, decoded body with echoed parameters / attribute / selected route) must equal the response on a fresh container with trace off. E3 (instrumented): every pair (thorough: also triples) of Q concurrently, all schedules within the preemption bound, same oracle per request, happens-before race detection; then the free-running -race pass. Every history is non-trivial.", len(q), depth)
+	run.Cov["rule"] = fmt.Sprintf("E2: configurations {plain, 3 container + service + route filters, CORS with computed methods, OPTIONS filter, encoding with bounded(1) provider} x {CurlyRouter, RouterJSR311} x entry {Dispatch, ServeHTTP} x trace {off, on}: every sequence over the request set Q (%d requests: two GETs on one template, POST entity, 404, 405, CORS preflight, a handler that dispatches a nested request, a second template with other methods incl. its preflight and 405, a second service, a plain handler behind HandleWithFilter, an entity negotiated between XML and JSON under two Accept headers that differ only in letter case and once as XML, routes with a regular-expression variable, a custom verb and a tail wildcard, two requests whose route function panics (default recover handler), two requests to a service whose root path has a variable, an Accept header with an unparsable q value) of length %s on one container, plus the 1000-fold repetition of each request; the last response (status, all headers, decoded body with echoed parameters / attribute / selected route) must equal the response on a fresh container with trace off. E3 (instrumented): every pair (thorough: also triples) of Q concurrently, all schedules within the preemption bound, same oracle per request, happens-before race detection; then the free-running -race pass. Every history is non-trivial.", len(q), depth)
 	run.Assume = []string{"every history starts from the same package-level state (restored between histories)", "differential: the fresh-container response is the reference; handlers also self-check that their own view does not change while they run"}
 	if f := e3Part["C19"]; f != nil {
 		f(run)
